@@ -85,7 +85,7 @@ class Ctx:
     def design_must_hold(self, module, cfg=None, **kw):
         r = self.design_check(module, cfg=cfg, **kw)
         if not r.ok:
-            raise Machinery("design spec %s (%s) violated: %s %s\n%s" % (module, cfg, r.violation, r.violated_name, r.out[-3000:]))
+            raise Machinery("design spec %s (%s) violated: %s %s\n%s" % (module, cfg, r.violation, r.violated_name, tlc._errsummary(r.out)[:3000]))
         return r
 
     # ---------- M4: trace validation
